@@ -83,8 +83,32 @@ func ruleGoError(w *World, r *RuleResult) {
 		ev := phiOnPath(p.Ret.Results[1], p)
 		isNil := isNilConst(ev)
 		facts := map[string]bool{}
+		sysClear := 0
 		for _, d := range p.Decisions {
 			c := classify(d.Cond)
+			// one of the two system flags tested by itself (r.SystemOverflow() || r.SystemUnderflow()): set on
+			// this path means a system flag is set; both found clear means none is
+			if tv, bits, tms, okS := w.systemTest(d.Cond); c == "" && okS && tv == ssa.Value(f.Params[0]) && bits != 0 && bits&^3 == 0 {
+				if d.Val == tms {
+					facts["sys=true"] = true
+				} else {
+					sysClear |= bits
+					if sysClear == 3 {
+						facts["sys=false"] = true
+					}
+				}
+				continue
+			}
+			// (r & traps).Any(), with Any verified to be `r != 0`
+			if call, isC := d.Cond.(*ssa.Call); c == "" && isC && len(call.Common().Args) == 1 && w.isNonZeroPredicate(callee(call)) {
+				if and, isA := call.Common().Args[0].(*ssa.BinOp); isA && and.Op == token.AND && len(f.Params) > 1 {
+					x, y := and.X, and.Y
+					if (x == ssa.Value(f.Params[0]) && y == ssa.Value(f.Params[1])) || (y == ssa.Value(f.Params[0]) && x == ssa.Value(f.Params[1])) {
+						facts[fmt.Sprintf("traps=%v", d.Val)] = true
+						continue
+					}
+				}
+			}
 			if c == "" {
 				bad = append(bad, "unrecognised branch condition "+w.exprOf(f, d.Cond).String())
 				continue
